@@ -74,14 +74,16 @@ func (cm *FairMQ) Commit(evt string, src string, dst string, args map[string]str
 		finalState, err = cm.doReset(evt, src, dst, args)
 	case "EXIT":
 		var state string
+		endSrc := src
 		if src == "CONFIGURED" { // We need to RESET first
 			state, err = cm.doReset(evt, src, dst, args)
 			if state != "STANDBY" {
 				finalState = state
 				break
 			}
+			endSrc = state // the device is in IDLE now
 		}
-		finalState, err = cm.DoTransition(EventInfo{fairmq.EvtEND, cm.fmqStateForState(src), cm.fmqStateForState(dst), args})
+		finalState, err = cm.DoTransition(EventInfo{fairmq.EvtEND, cm.fmqStateForState(endSrc), cm.fmqStateForState(dst), args})
 		finalState = cm.stateForFmqState(finalState)
 	default:
 		log.WithField("event", evt).Error("transition impossible")
@@ -131,6 +133,8 @@ func (cm *FairMQ) doConfigure(evt string, src string, dst string, args map[strin
 	state, err = cm.DoTransition(EventInfo{fairmq.EvtBIND, fairmq.INITIALIZED, fairmq.BOUND, nil})
 	if state == fairmq.INITIALIZED { // If we're stuck in the intermediate INITIALIZED state, we roll back to IDLE
 		state, _ = cm.DoTransition(EventInfo{fairmq.EvtRESET_DEVICE, fairmq.INITIALIZED, cm.fmqStateForState(src), nil})
+		finalState = cm.stateForFmqState(state)
+		return
 	} else if state != fairmq.BOUND {
 		finalState = cm.stateForFmqState(state)
 		return
@@ -139,6 +143,8 @@ func (cm *FairMQ) doConfigure(evt string, src string, dst string, args map[strin
 	state, err = cm.DoTransition(EventInfo{fairmq.EvtCONNECT, fairmq.BOUND, fairmq.DEVICE_READY, nil})
 	if state == fairmq.BOUND { // If we're stuck in the intermediate BOUND state, we roll back to IDLE
 		state, _ = cm.DoTransition(EventInfo{fairmq.EvtRESET_DEVICE, fairmq.BOUND, cm.fmqStateForState(src), nil})
+		finalState = cm.stateForFmqState(state)
+		return
 	} else if state != fairmq.DEVICE_READY {
 		finalState = cm.stateForFmqState(state)
 		return
